@@ -16,3 +16,13 @@ package persister
 //@   loop 1:
 //@     invariant[idx] 0 <= #i && #i <= len(#s) && #s == s
 //@     invariant[none_so_far] forall j int :: 0 <= j && j < #i ==> !reMatch(s[j].Pattern.src, metric)
+
+// ReadWhisperSchemas: parsing of the ini file is outside the verifier's reach (file I/O, string
+// scanning); what callers rely on is stated here and the rule order is checked by a bounded stand-in.
+//@ func ReadWhisperSchemas(filename string) (s WhisperSchemas, err error)
+//@   property C16
+//@   trusted
+//@   fresh
+//@   modifies *
+//@   ensures[compiled; C16; bounded] err == nil ==> schemasOK(s) && (forall k int :: 0 <= k && k < len(s) ==> (forall r int :: 0 <= r && r < len(s[k].Retentions) ==> s[k].Retentions[r] != nil))
+//@   bounded TestBounded_schemaOrder "600 random storage-schemas files (1-6 rules, priorities from {unset,0,1,2,-1}, anchored and unanchored patterns, old and new retention syntax) x 12 names: Match picks the rule with the highest priority among the matching ones, file order breaking ties, and its first retention gives the interval"
